@@ -3,7 +3,6 @@ package main
 // Evaluation of specification expressions into SMT terms.
 
 import (
-	"strconv"
 	"fmt"
 	"go/constant"
 	"go/types"
@@ -11,6 +10,7 @@ import (
 	"math/big"
 	"regexp"
 	"sort"
+	"strconv"
 	"strings"
 
 	"golang.org/x/tools/go/ssa"
